@@ -16,7 +16,10 @@ def s_jobs(tier, field='felt'):
     rt = [1, 2, 4, 8, 16, 32, 64] if tier == 'quick' else [1, 2, 4, 8, 16, 32, 64, 128, 256]
     for n in rt:
         jobs.append(('roundtrip', n, 0, 900 if n <= 64 else 3000))
-        jobs.append(('splitmerge', n, 0, 900 if n <= 64 else 3000))
+        jobs.append(('mergesplit', n, 0, 900 if n <= 64 else 3000))
+        if n <= 128:
+            jobs.append(('roundtrip2', n, 0, 900 if n <= 64 else 3000))
+            jobs.append(('splitmerge', n, 0, 900 if n <= 64 else 3000))
     mono = [1, 2, 4, 8, 16] if tier == 'quick' else [1, 2, 4, 8, 16, 32, 64]
     for n in mono:
         for j in range(n):
@@ -41,7 +44,7 @@ def run_s(rep, tier, field='felt', pid_key='ntt'):
         res = {'kind': kind, 'n': n, 'j': j, 'verdict': v, 's': round(dt, 2), 'unit': None}
         if v != 'unsat':
             # every query is linear in the symbolic vector: a violated identity is violated on some unit vector
-            for k in range(n):
+            for k in (range(n) if n <= 64 else list(range(0, n, max(1, n // 16)))):
                 uv, udt, model = S.solve(path, extra=S.unit_extra(n, k), timeout=120, want_model=True)
                 if uv == 'sat':
                     res['unit'] = k; break
@@ -52,7 +55,7 @@ def run_s(rep, tier, field='felt', pid_key='ntt'):
         verdicts = list(ex.map(work, sorted(jobs, key=lambda j: -j[1])))
     # cross-check two z3 releases on the small sizes
     cross = []
-    for kind, n in (('roundtrip', 8), ('splitmerge', 8), ('monomial', 8)):
+    for kind, n in (('roundtrip', 8), ('roundtrip2', 8), ('mergesplit', 8), ('splitmerge', 8), ('monomial', 8)):
         path = S.emit(kind, field, n, 3 if kind == 'monomial' else 0, name='cross_%s_%s.smt2' % (kind, field))
         a = S.solve(path, timeout=300)[0]; b = S.solve(path, timeout=300, solver=S.Z3_NEW)[0]
         cross.append((kind, n, a, b))
@@ -93,9 +96,9 @@ def confirm_s(rep, r, field):
         rep.note_inconclusive('engine S counterexample on the %s tables (n=%d, unit %d): supporting evidence only, not replayed' % (field, n, k)); return
     if r['kind'] == 'roundtrip':
         got = replay.both(['ntt_roundtrip', arg]); want = arg
-        got2 = (replay.call1(['ntt_fwd', replay.call1(['ntt_inv', arg])]),) * 2 if got == (want, want) else got
-        got = got2
-    elif r['kind'] == 'splitmerge':
+    elif r['kind'] == 'roundtrip2':
+        got = (replay.call1(['ntt_fwd', replay.call1(['ntt_inv', arg])]),) * 2; want = arg
+    elif r['kind'] in ('splitmerge', 'mergesplit'):
         got = replay.both(['ntt_split_merge', replay.call1(['ntt_fwd', arg])]); want = replay.call1(['ntt_fwd', arg])
         # the forward transform itself is checked against the specification's evaluation
         ev = spec.evaluate(a, n)
@@ -170,7 +173,7 @@ def check(tier):
     rep.functions = ['CyclotomicFourier::{fft, ifft, split_fft, merge_fft} (generic code, run on symbolic terms)', 'FELT_BITREVERSED_POWERS_1024, FELT_BITREVERSED_POWERS_INVERSE_1024, FELT_NINV_*',
                      '<Polynomial<Felt> as FastFft>::{fft_inplace, ifft_inplace, split_fft, merge_fft} (MIR glue)']
     rep.bounds = ['tables / constants: every index 0..1023 and all eleven n^-1 constants (symbolic index, exhaustive)',
-                  'round trip and split/merge: all a in Z_q^n fully symbolic, n in {1..64} quick, {1..256} thorough',
+                  'ifft(fft(a)) = a and merge(split(F)) = F: all a in Z_q^n fully symbolic, n in {1..64} quick, {1..256} thorough; fft(ifft(a)) = a and split(fft(a)) = (fft(a_even), fft(a_odd)): n <= 64 quick, <= 128 thorough',
                   'product: ifft(fft(a) .* fft(X^j)) = X^j a for all a in Z_q^n and every j < n, n <= 16 quick, n <= 64 thorough; arbitrary b follows by linearity (C12)',
                   'glue: every n in {1,2,...,1024}']
     rep.outside = ['fully symbolic transforms at n = 512 and 1024 (z3 exceeds memory): covered only structurally (size-independent butterflies + every table entry + every size-specific constant and match arm)',
